@@ -239,6 +239,25 @@ def offender_pool(rng: random.Random) -> list:
     return rng.sample(members, 3)
 
 
+def wide_pool(rng: random.Random) -> list:
+    """wide sums and products (6-14 operands, several of them reducible) used as arguments and
+    co-factors, so that symbolic differentiation carries the caller's own wide node into the rewriter"""
+    x, y = X.Variable("x"), X.Variable("y")
+    c = lambda v: X.Constant(float(v))  # noqa: E731
+
+    def reducible():
+        return rng.choice([X.Minus(x, y), X.Divide(x, y), X.Multiply(x, c(1)), X.NthPower(y, 1), X.Sine(x), X.Multiply(c(2), x),
+                           X.Negation(X.Negation(y)), X.Add(x, c(0)), X.Reciprocal(X.Reciprocal(X.Add(c(3), x))), X.Power(x, c(2)),
+                           X.Multiply(c(2), c(3), y), X.Exponential(X.Logarithm(X.Add(c(2), X.NthPower(x, 2))))])
+    members = []
+    for _ in range(3):
+        K = rng.choice([X.Add, X.Multiply])
+        w = K(*[reducible() for _ in range(rng.randint(6, 12))])
+        members.append(rng.choice([X.Sine(w), X.Multiply(w, x), X.Divide(x, X.Add(X.NthPower(w, 2), c(3))), X.Exponential(X.Multiply(c(0.01), w)),
+                                   X.Logarithm(X.Add(c(2), X.NthPower(w, 2))), w]))
+    return members
+
+
 def sum_pool(rng: random.Random) -> list:
     """pools built the way users write them: operator chains give nested binary sums and products"""
     g = gen.Gen(rng, names=("x", "y", "z"), floats_only=True)
